@@ -113,13 +113,17 @@ func escapeClass(root, p string) string {
 	return "absolute-elsewhere"
 }
 
+// kase is one history: the paths of hist are offered one after the other to
+// ONE FileManager (each offer with its own block, like the blocks of one file).
 type kase struct {
 	cfg   int
-	entry string
-	path  string // raw FullPath handed to the filestore
+	entry string   // entry point used for every offer; "mixed" cycles through all three
+	hist  []string // raw FullPaths handed to the filestore
 }
 
-func (k kase) id() string { return fmt.Sprintf("%s|%s|%s", rootCfgs[k.cfg].name, k.entry, k.path) }
+func (k kase) id() string {
+	return fmt.Sprintf("%s|%s|%s", rootCfgs[k.cfg].name, k.entry, strings.Join(k.hist, " ; "))
+}
 
 var (
 	cntMu sync.Mutex
@@ -132,96 +136,159 @@ func count(r *eng.Run, k string) {
 	cntMu.Unlock()
 }
 
-func run(r *eng.Run, k kase, verbose bool) *eng.Violation {
-	bg := context.Background()
-	root := rootCfgs[k.cfg].root()
-	// the path as the user sees it: S-relative placeholders are already expanded
-	p := k.path
+type fsys struct {
+	fm *filestore.FileManager
+	fs *filestore.Filestore
+}
 
-	data := []byte("no regular file at " + p)
-	if st, err := os.Stat(abs(p)); err == nil && st.Mode().IsRegular() && p != "" {
-		b, err := os.ReadFile(abs(p))
-		must(err)
-		data = b
-	}
+func newFsys(root string) *fsys {
 	mds := dssync.MutexWrap(ds.NewMapDatastore())
 	fm := filestore.NewFileManager(mds, root)
 	fm.AllowFiles = true
-	fs := filestore.NewFilestore(bstore.NewBlockstore(mds), fm, nil)
-	node := dag.NewRawNode(data)
-	fn := &posinfo.FilestoreNode{Node: node, PosInfo: &posinfo.PosInfo{FullPath: p, Offset: 0}}
-	var err error
-	switch k.entry {
+	return &fsys{fm, filestore.NewFilestore(bstore.NewBlockstore(mds), fm, nil)}
+}
+
+func (f *fsys) put(entry string, fn *posinfo.FilestoreNode) error {
+	bg := context.Background()
+	switch entry {
 	case "Filestore.Put":
-		err = fs.Put(bg, fn)
+		return f.fs.Put(bg, fn)
 	case "Filestore.PutMany":
-		err = fs.PutMany(bg, []blocks.Block{fn})
+		return f.fs.PutMany(bg, []blocks.Block{fn})
 	case "FileManager.Put":
-		err = fm.Put(bg, fn)
-	default:
-		panic("bad entry " + k.entry)
+		return f.fm.Put(bg, fn)
+	case "FileManager.PutMany":
+		return f.fm.PutMany(bg, []*posinfo.FilestoreNode{fn})
 	}
-	in := inside(root, p)
+	panic("bad entry " + entry)
+}
+
+// freshVerdict: is p accepted when it is the first thing ever offered to a new FileManager?
+var freshMemo sync.Map
+
+func freshVerdict(cfg int, entry, p string) bool {
+	key := fmt.Sprintf("%d|%s|%s", cfg, entry, p)
+	if v, ok := freshMemo.Load(key); ok {
+		return v.(bool)
+	}
+	f := newFsys(rootCfgs[cfg].root())
+	node := dag.NewRawNode([]byte("fresh offer of " + p))
+	ok := f.put(entry, &posinfo.FilestoreNode{Node: node, PosInfo: &posinfo.PosInfo{FullPath: p}}) == nil
+	freshMemo.Store(key, ok)
+	return ok
+}
+
+func run(r *eng.Run, k kase, verbose bool) *eng.Violation {
+	bg := context.Background()
+	root := rootCfgs[k.cfg].root()
+	f := newFsys(root)
 	id := k.id()
-	if verbose {
-		fmt.Printf("  root=%q path=%q component-wise inside=%v Put err=%v\n", root, p, in, err)
-	}
-	if err != nil {
-		// rejection is what the statement allows for anything; the plain control must pass
-		if p == filepath.Join(abs(root), "file") && (k.cfg == 0) {
-			return eng.V("inside-reference-rejected", k.entry, fmt.Sprintf("%s: control path rejected: %v", id, err), "root", rootCfgs[k.cfg].name)
+	firstCls := ""
+	for i, p := range k.hist {
+		entry := k.entry
+		if entry == "mixed" {
+			entry = entriesAll[i%len(entriesAll)]
 		}
-		if in {
-			count(r, "rejected_inside")
-			r.Outcome("rejected|inside")
-		} else {
-			count(r, "rejected_outside")
-			r.Outcome("rejected|outside")
+		// the first offer carries the real bytes of the file at p (so that Get
+		// can serve them); later offers are further blocks with the same FullPath
+		data := []byte(fmt.Sprintf("offer %d: no regular file at %s", i, p))
+		isFile := false
+		if i == 0 {
+			if st, err := os.Stat(abs(p)); err == nil && st.Mode().IsRegular() && p != "" {
+				b, err := os.ReadFile(abs(p))
+				must(err)
+				data, isFile = b, true
+			}
 		}
-		return nil
-	}
-	// accepted: read the stored reference back and resolve it the way Get does
-	lr := filestore.List(bg, fs, node.Cid())
-	if lr.Status != filestore.StatusOk {
-		return eng.V("accepted-reference-not-listed", k.entry, fmt.Sprintf("%s: Put ok but List status %v %s", id, lr.Status, lr.ErrorMsg), "root", rootCfgs[k.cfg].name)
-	}
-	resolved := filepath.Join(root, filepath.FromSlash(lr.FilePath))
-	resIn := inside(root, resolved)
-	blk, gerr := fs.Get(bg, node.Cid())
-	served := gerr == nil && bytes.Equal(blk.RawData(), data)
-	physOutside := false
-	if rp, e1 := filepath.EvalSymlinks(abs(resolved)); e1 == nil {
-		if rr, e2 := filepath.EvalSymlinks(abs(root)); e2 == nil {
-			physOutside = !inside(rr, rp)
+		node := dag.NewRawNode(data)
+		err := f.put(entry, &posinfo.FilestoreNode{Node: node, PosInfo: &posinfo.PosInfo{FullPath: p, Offset: 0}})
+		in := inside(root, p)
+		hist := "first-offer"
+		switch {
+		case i > 0 && k.hist[i-1] == p:
+			hist = "repeated-in-a-row"
+		case i > 0:
+			hist = "after-other-path"
+		}
+		if verbose {
+			fmt.Printf("  offer %d via %s: root=%q path=%q component-wise inside=%v Put err=%v\n", i+1, entry, root, p, in, err)
+		}
+		if err != nil {
+			// rejection is what the statement allows for anything; the plain control must pass
+			if i == 0 && p == filepath.Join(abs(root), "file") && k.cfg == 0 {
+				return eng.V("inside-reference-rejected", entry, fmt.Sprintf("%s: control path rejected: %v", id, err), "root", rootCfgs[k.cfg].name)
+			}
+			if i > 0 && freshVerdict(k.cfg, entry, p) {
+				return eng.V("verdict-depends-on-history", entry, fmt.Sprintf("%s: offer %d of %q is rejected (%v) although a fresh FileManager accepts it", id, i+1, p, err),
+					"root", rootCfgs[k.cfg].name, "history", hist, "direction", "accepted-fresh-rejected-later")
+			}
+			if i == 0 {
+				if in {
+					firstCls = "rejected|inside"
+					count(r, "rejected_inside")
+				} else {
+					firstCls = "rejected|outside"
+					count(r, "rejected_outside")
+				}
+			}
+			continue
+		}
+		// accepted: read the stored reference back and resolve it the way Get does
+		lr := filestore.List(bg, f.fs, node.Cid())
+		if lr.Status != filestore.StatusOk {
+			return eng.V("accepted-reference-not-listed", entry, fmt.Sprintf("%s: offer %d: Put ok but List status %v %s", id, i+1, lr.Status, lr.ErrorMsg), "root", rootCfgs[k.cfg].name)
+		}
+		resolved := filepath.Join(root, filepath.FromSlash(lr.FilePath))
+		resIn := inside(root, resolved)
+		served := false
+		var gerr error
+		if isFile {
+			var blk blocks.Block
+			blk, gerr = f.fs.Get(bg, node.Cid())
+			served = gerr == nil && bytes.Equal(blk.RawData(), data)
+		}
+		physOutside := false
+		if rp, e1 := filepath.EvalSymlinks(abs(resolved)); e1 == nil {
+			if rr, e2 := filepath.EvalSymlinks(abs(root)); e2 == nil {
+				physOutside = !inside(rr, rp)
+			}
+		}
+		if verbose {
+			fmt.Printf("    stored FilePath=%q resolves to %q inside=%v; Get err=%v served=%v physically-outside=%v\n", lr.FilePath, resolved, resIn, gerr, served, physOutside)
+		}
+		if !in || !resIn {
+			sym := "reference-outside-root-accepted"
+			if in && !resIn {
+				sym = "stored-reference-resolves-outside-root"
+			}
+			return eng.V(sym, entry,
+				fmt.Sprintf("%s: offer %d (%s): root %q accepted FullPath %q (component-wise inside=%v); stored FilePath %q resolves to %q (inside=%v); Get served the bytes of that file: %v", id, i+1, hist, root, p, in, lr.FilePath, abs(resolved), resIn, served),
+				"root", rootCfgs[k.cfg].name, "escape", escapeClass(root, p), "outside_data_served", fmt.Sprint(served), "history", hist)
+		}
+		if i > 0 && !freshVerdict(k.cfg, entry, p) {
+			return eng.V("verdict-depends-on-history", entry, fmt.Sprintf("%s: offer %d of %q is accepted although a fresh FileManager rejects it", id, i+1, p),
+				"root", rootCfgs[k.cfg].name, "history", hist, "direction", "rejected-fresh-accepted-later")
+		}
+		if i == 0 {
+			firstCls = "accepted|inside"
+			if physOutside {
+				firstCls += "|symlink-escape"
+				count(r, "symlink_escapes_accepted")
+				if served {
+					count(r, "symlink_escapes_served")
+				}
+			}
+			if served {
+				firstCls += "|served"
+			}
+			count(r, "accepted_inside")
 		}
 	}
-	if verbose {
-		fmt.Printf("  stored FilePath=%q resolves to %q inside=%v; Get err=%v served=%v physically-outside=%v\n", lr.FilePath, resolved, resIn, gerr, served, physOutside)
-	}
-	if !in || !resIn {
-		sym := "reference-outside-root-accepted"
-		if in && !resIn {
-			sym = "stored-reference-resolves-outside-root"
-		}
-		return eng.V(sym, k.entry,
-			fmt.Sprintf("%s: root %q accepted FullPath %q (component-wise inside=%v); stored FilePath %q resolves to %q (inside=%v); Get served the bytes of that file: %v", id, root, p, in, lr.FilePath, abs(resolved), resIn, served),
-			"root", rootCfgs[k.cfg].name, "escape", escapeClass(root, p), "outside_data_served", fmt.Sprint(served))
-	}
-	cls := "accepted|inside"
-	if physOutside {
-		cls += "|symlink-escape"
-		count(r, "symlink_escapes_accepted")
-		if served {
-			count(r, "symlink_escapes_served")
-		}
-	}
-	if served {
-		cls += "|served"
-	}
-	count(r, "accepted_inside")
-	r.Outcome(cls)
+	r.Outcome(firstCls)
 	return nil
 }
+
+var entriesAll = []string{"FileManager.Put", "Filestore.PutMany", "Filestore.Put", "FileManager.PutMany"}
 
 func words(maxLen int) [][]string {
 	out := [][]string{}
@@ -256,8 +323,27 @@ func paths(maxLen int) []string {
 	return out
 }
 
+// pool picks, for one root configuration, the first perClass paths (shortest
+// words first) of every class of the full path domain; the class only serves
+// to make the pool diverse (escaping / non-escaping, passing / failing a
+// string-prefix comparison with the root, with / without '..', through a symlink).
+func pool(cfg int, ps []string, perClass int) []string {
+	root := rootCfgs[cfg].root()
+	n := map[string]int{}
+	var out []string
+	for _, p := range ps {
+		cls := fmt.Sprintf("in=%v pre=%v dd=%v ln=%v abs=%v", inside(root, p), strings.HasPrefix(p, root),
+			strings.Contains(p, ".."), strings.Contains(p, "link"), filepath.IsAbs(p))
+		if n[cls] < perClass {
+			n[cls]++
+			out = append(out, p)
+		}
+	}
+	return out
+}
+
 func body(r *eng.Run) {
-	r.Rule("all raw path words of bounded length over the component alphabet (absolute under the scratch dir and relative) plus fixed foreign paths x root configuration x entry point; every case is a distinct canonical (root, entry, path) triple; non-trivial = path does not name the control file")
+	r.Rule("(1) all raw path words of bounded length over the component alphabet (absolute under the scratch dir and relative) plus fixed foreign paths x root configuration x entry point, each offered TWICE IN A ROW to one fresh FileManager; (2) for a reduced pool (first paths of every class: inside/outside x passes/fails the string prefix x '..' x symlink x abs/rel) every ordered pair (p,q) offered as p,q,p and q,p,p (p=q gives p,p,p) to one FileManager, per root configuration and entry point (incl. one that alternates entry points). Every Put of every history is judged: accepted => component-wise inside and stored reference resolves inside; verdict equals the verdict of a fresh FileManager. Every (root, entry, history) is a distinct case.")
 	r.Assume("path/filepath.Rel, Clean and EvalSymlinks are correct (they form the reference judgement)")
 	buildTree()
 	ps := paths(eng.Pick(r, 4, 5))
@@ -269,10 +355,30 @@ func body(r *eng.Run) {
 	for ci := range rootCfgs {
 		for _, e := range entries {
 			for _, p := range ps {
-				ks = append(ks, kase{ci, e, p})
+				ks = append(ks, kase{ci, e, []string{p, p}})
 			}
 		}
 	}
+	nSingle := len(ks)
+	perClass := eng.Pick(r, 2, 4)
+	poolSizes := map[string]int{}
+	for ci := range rootCfgs {
+		pl := pool(ci, ps, perClass)
+		poolSizes[rootCfgs[ci].name] = len(pl)
+		for _, e := range append(append([]string{}, entries...), "FileManager.PutMany", "mixed") {
+			for _, p := range pl {
+				for _, q := range pl {
+					ks = append(ks, kase{ci, e, []string{p, q, p}})
+					if p != q {
+						ks = append(ks, kase{ci, e, []string{q, p, p}})
+					}
+				}
+			}
+		}
+	}
+	r.Set("histories_twice_in_a_row", nSingle)
+	r.Set("histories_pairs", len(ks)-nSingle)
+	r.Set("pair_pool_sizes", poolSizes)
 	var skipped atomic.Int64
 	eng.ParFor(len(ks), func(i int) {
 		if r.Expired() {
@@ -287,7 +393,7 @@ func body(r *eng.Run) {
 		r.Eval(1)
 		r.Distinct(k.id())
 		if v != nil {
-			v.Replay = map[string]any{"root": rootCfgs[k.cfg].name, "entry": k.entry, "path_under_scratch": strings.ReplaceAll(k.path, S, "$S")}
+			v.Replay = replayRec(k)
 			r.Report(v)
 		}
 	})
@@ -300,17 +406,26 @@ func body(r *eng.Run) {
 	}
 	cntMu.Unlock()
 	for i := 0; i < len(ks); i += len(ks)/6 + 1 {
-		k := ks[len(ks)-1-i]
-		r.Sample(map[string]string{"root": rootCfgs[k.cfg].name, "entry": k.entry, "path": strings.ReplaceAll(k.path, S, "$S")})
+		r.Sample(replayRec(ks[len(ks)-1-i]))
 	}
 }
 
-func replay(r *eng.Run, raw json.RawMessage) {
-	var rp struct {
-		Root  string `json:"root"`
-		Entry string `json:"entry"`
-		Path  string `json:"path_under_scratch"`
+type replayT struct {
+	Root    string   `json:"root"`
+	Entry   string   `json:"entry"`
+	History []string `json:"history_under_scratch"`
+}
+
+func replayRec(k kase) replayT {
+	h := make([]string, len(k.hist))
+	for i, p := range k.hist {
+		h[i] = strings.ReplaceAll(p, S, "$S")
 	}
+	return replayT{rootCfgs[k.cfg].name, k.entry, h}
+}
+
+func replay(r *eng.Run, raw json.RawMessage) {
+	var rp replayT
 	if err := json.Unmarshal(raw, &rp); err != nil {
 		fmt.Println("bad replay:", err)
 		return
@@ -320,7 +435,10 @@ func replay(r *eng.Run, raw json.RawMessage) {
 		if c.name != rp.Root {
 			continue
 		}
-		k := kase{ci, rp.Entry, strings.ReplaceAll(rp.Path, "$S", S)}
+		k := kase{cfg: ci, entry: rp.Entry}
+		for _, p := range rp.History {
+			k.hist = append(k.hist, strings.ReplaceAll(p, "$S", S))
+		}
 		var v *eng.Violation
 		if pv := eng.Guard(k.entry, func() { v = run(r, k, true) }); pv != nil {
 			v = pv
